@@ -179,4 +179,172 @@ theorem countRun_exact : ∀ (evs : List CountEv) (n fr n' fr' : Nat),
       have : 0 < n := Nat.pos_of_ne_zero h0
       simp [this]
 
+/-! ### swaps under an exclusive lock serialise -/
+
+/-- a whole swap as one action -/
+def swapList (arr : List Nat) (a b : Nat) : List Nat :=
+  (arr.set a (arr.getD b 0)).set b (arr.getD a 0)
+
+/-- instances in the order in which they acquired the lock -/
+def acqOrder : List Micro → List Nat
+  | [] => []
+  | .acq i :: rest => i :: acqOrder rest
+  | _ :: rest => acqOrder rest
+
+theorem swapList_length (arr : List Nat) (a b : Nat) : (swapList arr a b).length = arr.length := by
+  simp [swapList]
+
+theorem swapList_perm (arr : List Nat) (a b : Nat) (ha : a < arr.length) (hb : b < arr.length) :
+    (swapList arr a b).Perm arr := by
+  unfold swapList
+  have h1 : arr.getD a 0 = arr[a] := by simp [List.getD_eq_getElem?_getD, ha]
+  have h2 : arr.getD b 0 = arr[b] := by simp [List.getD_eq_getElem?_getD, hb]
+  rw [h1, h2]
+  exact List.set_set_perm ha hb
+
+/-- the six micro-steps of a swap, run without interruption, are the swap -/
+theorem execMicro_swapProg (arr : List Nat) (tmp : List (Nat × Nat × Nat)) (i a b : Nat) (rest : List Micro) :
+    ∃ tmp', execMicro (arr, tmp) (swapProg i a b ++ rest) = execMicro (swapList arr a b, tmp') rest := by
+  refine ⟨(i, 1, arr.getD b 0) :: (i, 0, arr.getD a 0) :: tmp, ?_⟩
+  simp [swapProg, execMicro, swapList, List.find?]
+
+theorem projMicro_cons_self (m : Micro) (t : List Micro) (i : Nat) (h : m.toEv.inst = i) :
+    projMicro i (m :: t) = m :: projMicro i t := by
+  simp [projMicro, h]
+
+theorem projMicro_cons_other (m : Micro) (t : List Micro) (i : Nat) (h : m.toEv.inst ≠ i) :
+    projMicro i (m :: t) = projMicro i t := by
+  simp [projMicro, h]
+
+theorem projMicro_block_other (i j a b : Nat) (hne : i ≠ j) (rest : List Micro) :
+    projMicro j (Micro.acq i :: ([Micro.load i 0 a, .load i 1 b, .store i a 1, .store i b 0]
+      ++ Micro.rel i :: rest)) = projMicro j rest := by
+  simp [projMicro, Micro.toEv, Ev.inst, hne]
+
+/-- an access micro-step of instance `i` -/
+def Micro.isAccOf (i : Nat) : Micro → Bool
+  | .load j _ _ => j == i
+  | .store j _ _ => j == i
+  | _ => false
+
+theorem isAccOf_toEv {i : Nat} {m : Micro} (h : m.isAccOf i = true) : ∃ w, m.toEv = .acc i w := by
+  cases m <;> simp_all [Micro.isAccOf, Micro.toEv]
+
+/-- while `i` holds the lock exclusively, the trace continues with exactly the
+rest of `i`'s program, then `i` releases -/
+theorem follow_block {k : LockKind} {mode : Nat → LockMode} {i : Nat}
+    (hg : grantsExcl k (mode i) = true) :
+    ∀ (p : List Micro) (tr1 : List Micro), (∀ m ∈ p, m.isAccOf i = true) →
+      runLock k mode [i] (tr1.map Micro.toEv) = some [] →
+      projMicro i tr1 = p ++ [.rel i] →
+      ∃ tr2, tr1 = p ++ .rel i :: tr2 ∧ runLock k mode [] (tr2.map Micro.toEv) = some []
+        ∧ projMicro i tr2 = []
+  | p, [], _, hrun, _ => by simp [runLock] at hrun
+  | [], m :: t, _, hrun, hproj => by
+    simp only [List.map_cons, runLock] at hrun
+    cases hs : stepLock k mode [i] m.toEv with
+    | none => simp [hs] at hrun
+    | some H1 =>
+      have hi := step_alone hg hs
+      rw [projMicro_cons_self m t i hi] at hproj
+      simp only [List.nil_append, List.cons.injEq] at hproj
+      obtain ⟨rfl, hpt⟩ := hproj
+      simp only [hs] at hrun
+      simp [Micro.toEv, stepLock] at hs
+      subst hs
+      exact ⟨t, rfl, hrun, hpt⟩
+  | x :: p', m :: t, hacc, hrun, hproj => by
+    simp only [List.map_cons, runLock] at hrun
+    cases hs : stepLock k mode [i] m.toEv with
+    | none => simp [hs] at hrun
+    | some H1 =>
+      have hi := step_alone hg hs
+      rw [projMicro_cons_self m t i hi] at hproj
+      simp only [List.cons_append, List.cons.injEq] at hproj
+      obtain ⟨rfl, hpt⟩ := hproj
+      simp only [hs] at hrun
+      obtain ⟨w, hw⟩ := isAccOf_toEv (hacc m (List.mem_cons_self ..))
+      rw [hw] at hs
+      simp [stepLock] at hs
+      subst hs
+      obtain ⟨tr2, rfl, h2, h3⟩ := follow_block hg p' t (fun y hy => hacc y (List.mem_cons_of_mem _ hy)) hrun hpt
+      exact ⟨tr2, rfl, h2, h3⟩
+
+theorem acqOrder_append_of_acc (i : Nat) : ∀ (p : List Micro), (∀ m ∈ p, m.isAccOf i = true) →
+    ∀ rest, acqOrder (p ++ rest) = acqOrder rest
+  | [], _, _ => rfl
+  | m :: p', h, rest => by
+    have hm := h m (List.mem_cons_self ..)
+    have ih := acqOrder_append_of_acc i p' (fun y hy => h y (List.mem_cons_of_mem _ hy)) rest
+    cases m <;> simp_all [Micro.isAccOf, acqOrder]
+
+/-- **Serialisation.** Every instance runs one `swap` under an acquisition that
+grants exclusivity. Then every complete trace the lock admits computes what the
+swaps compute when run one after the other, as whole actions, in the order in
+which they acquired the lock. -/
+theorem exclusive_swaps_serialize (k : LockKind) (mode : Nat → LockMode) (a b : Nat → Nat)
+    (hex : ∀ i, grantsExcl k (mode i) = true) :
+    ∀ (n : Nat) (tr : List Micro), tr.length ≤ n →
+      runLock k mode [] (tr.map Micro.toEv) = some [] →
+      (∀ i, projMicro i tr = [] ∨ projMicro i tr = swapProg i (a i) (b i)) →
+      ∀ arr tmp, execMicro (arr, tmp) tr
+        = (acqOrder tr).foldl (fun arr i => swapList arr (a i) (b i)) arr
+  | _, [], _, _, _, arr, tmp => by simp [execMicro, acqOrder]
+  | 0, m :: t, hn, _, _, _, _ => by simp at hn
+  | n + 1, m :: t, hn, hrun, hprog, arr, tmp => by
+    simp only [List.map_cons, runLock] at hrun
+    cases hs : stepLock k mode [] m.toEv with
+    | none => simp [hs] at hrun
+    | some H1 =>
+      simp only [hs] at hrun
+      -- from the empty holder list only an acquisition can happen
+      cases m with
+      | rel j => simp [Micro.toEv, stepLock] at hs
+      | load j s x => simp [Micro.toEv, stepLock] at hs
+      | store j x s => simp [Micro.toEv, stepLock] at hs
+      | acq i =>
+        simp [Micro.toEv, stepLock, canAcq] at hs
+        have hH1 : H1 = [i] := by
+          cases k <;> simp_all
+        subst hH1
+        have hpi := hprog i
+        rw [projMicro_cons_self (.acq i) t i rfl] at hpi
+        rcases hpi with hnil | hsw
+        · cases hnil
+        · simp only [swapProg, List.cons.injEq, true_and] at hsw
+          have hacc : ∀ y ∈ [Micro.load i 0 (a i), .load i 1 (b i), .store i (a i) 1, .store i (b i) 0],
+              y.isAccOf i = true := by
+            intro y hy
+            simp only [List.mem_cons, List.not_mem_nil, or_false] at hy
+            rcases hy with rfl | rfl | rfl | rfl <;> simp [Micro.isAccOf]
+          obtain ⟨tr2, rfl, h2, h3⟩ := follow_block (hex i) _ t hacc hrun (by simpa using hsw)
+          have hlen : tr2.length ≤ n := by
+            simp only [List.length_cons, List.length_append] at hn
+            omega
+          have hprog2 : ∀ j, projMicro j tr2 = [] ∨ projMicro j tr2 = swapProg j (a j) (b j) := by
+            intro j
+            by_cases hj : j = i
+            · subst hj; exact Or.inl h3
+            · have := hprog j
+              have hne : i ≠ j := fun e => hj e.symm
+              rw [projMicro_block_other i j _ _ hne tr2] at this
+              exact this
+          have hblock : (Micro.acq i :: ([Micro.load i 0 (a i), .load i 1 (b i), .store i (a i) 1, .store i (b i) 0]
+              ++ Micro.rel i :: tr2)) = swapProg i (a i) (b i) ++ tr2 := by
+            simp [swapProg]
+          rw [hblock]
+          obtain ⟨tmp', hexec⟩ := execMicro_swapProg arr tmp i (a i) (b i) tr2
+          rw [hexec, exclusive_swaps_serialize k mode a b hex n tr2 hlen h2 hprog2]
+          simp [swapProg, acqOrder]
+
+theorem foldl_swap_perm (a b : Nat → Nat) : ∀ (is : List Nat) (arr : List Nat),
+    (∀ i, a i < arr.length ∧ b i < arr.length) →
+    (is.foldl (fun arr i => swapList arr (a i) (b i)) arr).Perm arr
+  | [], arr, _ => List.Perm.refl _
+  | i :: rest, arr, h => by
+    simp only [List.foldl]
+    have h' : ∀ j, a j < (swapList arr (a i) (b i)).length ∧ b j < (swapList arr (a i) (b i)).length := by
+      intro j; rw [swapList_length]; exact h j
+    exact (foldl_swap_perm a b rest _ h').trans (swapList_perm arr _ _ (h i).1 (h i).2)
+
 end RotoV.Conc.Share
